@@ -22,6 +22,14 @@ func (a *A) get(x int) int { return a.K*100 + x + 4 }
 //go:noinline
 func (a *A) getMore(x int) int { return a.K*100 + x + 5 }
 
+// names that end in 'f' / 'm' next to their prefixes (a "-fm" suffix is how the runtime names method values)
+//
+//go:noinline
+func (a *A) getf(x int) int { return a.K*100 + x + 41 }
+
+//go:noinline
+func (a *A) Getf(x int) int { return a.K*100 + x + 42 }
+
 //go:noinline
 func (a A) Val(x int) int { return a.K*100 + x + 6 }
 
@@ -129,6 +137,10 @@ func Call(m int, k int, x int) int {
 		return G[string]{K: k}.ValId(x)
 	case 24:
 		return G[MyInt]{K: k}.ValId(x)
+	case 25:
+		return (&A{K: k}).getf(x)
+	case 26:
+		return (&A{K: k}).Getf(x)
 	}
 	return -1
 }
@@ -137,10 +149,10 @@ func Call(m int, k int, x int) int {
 var Names = []string{"(*A).Get", "(*A).GetMore", "(*A).G", "(*A).get", "(*A).getMore", "A.Val", "A.ValMore", "A.val",
 	"(*B).Get", "B.Val", "(*B).get", "(*c).Run", "(*c).run", "c.RunVal",
 	"(*G[int]).Id", "(*G[MyInt]).Id", "(*G[string]).Id", "(*G[*A]).Id", "(*G[*B]).Id", "(*G[int]).Other", "(*G[string]).Other", "A.Val via pointer",
-	"G[int].ValId", "G[string].ValId", "G[MyInt].ValId"}
+	"G[int].ValId", "G[string].ValId", "G[MyInt].ValId", "(*A).getf", "(*A).Getf"}
 
 // Consts are the additive constants of the originals.
-var Consts = []int{1, 2, 3, 4, 5, 6, 7, 8, 11, 12, 13, 21, 22, 23, 31, 31, 31, 31, 31, 32, 32, 6, 33, 33, 33}
+var Consts = []int{1, 2, 3, 4, 5, 6, 7, 8, 11, 12, 13, 21, 22, 23, 31, 31, 31, 31, 31, 32, 32, 6, 33, 33, 33, 41, 42}
 
 // NewC returns an instance of the unexported type (for type-directed APIs).
 func NewC(k int) interface{} { return &c{K: k} }
